@@ -1,6 +1,7 @@
 package protofields
 
 import (
+	apb "github.com/google/fhir/go/proto/google/fhir/proto/annotations_go_proto"
 	"strings"
 
 	dtpb "github.com/google/fhir/go/proto/google/fhir/proto/r4/core/datatypes_go_proto"
@@ -125,8 +126,19 @@ func StringValueFromCodeField(message proto.Message) (string, bool) {
 		field := reflect.Descriptor().Fields().ByName(protoreflect.Name("value"))
 		if field.Kind() == protoreflect.EnumKind {
 			enum := reflect.Get(field).Enum()
-			code := string(field.Enum().Values().ByNumber(enum).Name())
-			return strcase.ToKebab(code), true
+			value := field.Enum().Values().ByNumber(enum)
+			if value == nil {
+				// a number the enum does not define: there is no code to report
+				return "", false
+			}
+			// Codes that are not the kebab-case form of their enum constant ('<', '>=',
+			// 'text/plain', ...) carry the original FHIR code as an annotation.
+			if options := value.Options(); options != nil && proto.HasExtension(options, apb.E_FhirOriginalCode) {
+				if original, ok := proto.GetExtension(options, apb.E_FhirOriginalCode).(string); ok && original != "" {
+					return original, true
+				}
+			}
+			return strcase.ToKebab(string(value.Name())), true
 		}
 		if field.Kind() == protoreflect.StringKind {
 			return reflect.Get(field).String(), true
